@@ -425,19 +425,53 @@ func TestC17_BeyondFourGiB(t *testing.T) {
 				members = append(members, bigMember{name: fmt.Sprintf("m%d.z", i), size: 0xffffffff + 1 + k, deflated: true})
 			}
 		}
+		// one case in three: no 4 GiB member; a stored member sized so that the header of
+		// the member behind it, or the central directory, starts exactly at 4 GiB - 2 .. 4 GiB + 1,
+		// where the 32-bit offset field saturates
+		edge := ""
+		if rapid.IntRange(0, 2).Draw(t, "edge_case") == 0 {
+			delta := int64(rapid.SampledFrom([]int{-2, -1, 0, 1}).Draw(t, "edge_delta"))
+			anchorCD := rapid.Bool().Draw(t, "edge_is_directory")
+			target := int64(0xffffffff) + delta
+			members = []bigMember{{name: "first.txt", data: []byte("first member\n")}, {name: "filler.bin", size: 0xfff00000}}
+			if !anchorCD {
+				members = append(members, bigMember{name: "edge.txt", data: []byte("member whose header offset is at the edge\n")},
+					bigMember{name: "last.txt", data: []byte("last\n")})
+			}
+			at := func() int64 {
+				sp, w := buildBig(members, style)
+				if anchorCD {
+					return sp.pieces[len(sp.pieces)-1].off
+				}
+				return w[2].Offset
+			}
+			members[1].size += target - at()
+			if at() != target {
+				t.Fatalf("harness: edge layout landed at %d, want %d", at(), target)
+			}
+			kinds = []string{"small", "stored-filler", "small", "small"}[:len(members)]
+			edge = fmt.Sprintf("%s at 4GiB%+d", map[bool]string{true: "central directory", false: "member header"}[anchorCD], delta-1)
+		}
 		s, want := buildBig(members, style)
 		mode := "random-access"
 		if streaming {
 			mode = "streaming"
 		}
 		desc := map[string]any{"zip64_style": style, "over_4GiB_by": k, "members": kinds, "archive_bytes": s.size, "mode": mode}
+		if edge != "" {
+			desc["edge"] = edge
+			delete(desc, "over_4GiB_by")
+		}
 		failf := func(f string, args ...any) {
 			desc["error"] = fmt.Sprintf(f, args...)
 			evid.SaveCase(test, desc)
 			t.Fatalf("%s\n %v", desc["error"], desc)
 		}
 		class := "beyond-4GiB/" + style + "/" + mode
-		rec.Case(fmt.Sprintf("big|%s|%d|%v|%s", style, k, kinds, mode), class, true)
+		if edge != "" {
+			class = "at-4GiB-edge/" + style + "/" + mode
+		}
+		rec.Case(fmt.Sprintf("big|%s|%d|%v|%s|%s", style, k, kinds, mode, edge), class, true)
 		rec.Sample(class, desc)
 		goEnts, err := goListSparse(s)
 		if err != nil {
